@@ -11,6 +11,8 @@ from harness import framework
 
 
 def main():
+    import faulthandler, signal
+    faulthandler.register(signal.SIGUSR1, all_threads=True)      # kill -USR1 <pid> prints where a run is
     ap = argparse.ArgumentParser()
     ap.add_argument('pid')
     ap.add_argument('--tier', default=os.environ.get('VERIF_TIER', 'quick'), choices=['quick', 'thorough'])
